@@ -100,7 +100,10 @@ def judge (r : Req) (bypass : Bool) (x : Option Expect) (o : Obs) : Option Strin
     | .answered _ true _ _ => none
     | _ => some "early-rejection (request that bypasses the limiter did not reach the handler)"
   else match x with
-    | none => some "no-linearisation (request answered without a counter update)"
+    | none =>
+      match o with
+      | .noAnswer => some "no-answer (request panicked or never finished, budget untouched)"
+      | _ => some "no-linearisation (request answered without a counter update)"
     | some x =>
       if x.allow then
         match o with
